@@ -147,6 +147,25 @@ PROPS = {
         "technique": "protocol-automaton monitors on injected sinks with exhaustive single-fault placement",
         "jobs": [{"pkg": "motion", "test": "TestVerif_C12", "shards": (16, 16), "timeout": (300, 2400), "require": ["single_fault_runs", "recoveries_checked", "random_faults_injected"]}],
     },
+    "C14": {
+        "title": "Frame socket: header round-trips, frames delivered once, 'clear' resets",
+        "level": "exploration",
+        "rule": "Job 1 (headers package, amd64 and GOARCH=386): seeded camera descriptions (hostile single-line strings such as true/1.2/~/a: b/#c/quotes/tabs/UTF-8, random printable strings up to 255 bytes, serials over the whole uint64 range) "
+                "encoded as leptond does (yaml.v1 Marshal of the headers-keyed map + blank line), read through ReadHeaderInfo in 1-byte / small / whole / random pieces followed by sentinel bytes; every strict prefix followed by EOF. "
+                "Job 2 (cmd/thermal-recorder, -race): real handleConn over net.Pipe fed header + 20..300 frames + 0..7 'clear' markers (first/last/back-to-back) cut at PRNG-chosen byte boundaries (1-byte dribble, inside header/blank line/5-byte probe, bursts > 4096 bytes); "
+                "lepton3/3.5/boson, 16x12 and 160x120. Oracles: parsed header == sent; bytes after the blank line intact; frames received == sent; resets == markers; continuous-recorder files hold every sent frame once, in order, pixel- and telemetry-exact; "
+                "motion files equal the reference pipeline's prediction (recordings end at 'clear', detection restarts). Non-trivial = every completed case; distinct by encoded header / (stream, segmentation).",
+        "assumptions": COMMON_ASSUME + ["cmd/leptond's sendCameraSpecs needs camera hardware; its encoder call is replicated by the harness", "string values are single-line (a value containing an empty line cannot be framed by a blank-line-terminated header)",
+                                        "agreement on header keys rests on both daemons importing the same headers constants (observed from the recorder side only); the 'clear' marker constants of both binaries are compared at run time by job 3"],
+        "level_text": "Differential header round trip with exhaustive truncation points per generated header, plus an offline sent-vs-stored comparison through the real socket loop under adversarial read segmentation.",
+        "level_note": "F6 (CameraSerial outside Go int reads 0) is a listed known finding.",
+        "technique": "differential round-trip monitor + offline sent-vs-stored checker under randomized read segmentation",
+        "jobs": [
+            {"pkg": "headers", "test": "TestVerif_C14Header", "shards": (8, 16), "timeout": (300, 1800), "require": ["headers", "truncation_points", "serials_outside_int"]},
+            {"pkg": "headers", "test": "TestVerif_C14Header", "tag": "386", "goarch": "386", "shards": (4, 8), "timeout": (300, 1800), "require": ["headers", "truncation_points"]},
+            {"pkg": "recorder-main", "test": "TestVerif_C14Pipe", "race": True, "shards": (16, 16), "timeout": (600, 3000), "require": ["connections", "frames_verified_in_storage", "clear_markers", "recordings_ended_by_clear", "motion_files"]},
+        ],
+    },
     "C15": {
         "title": "Dynamic threshold tracks the background mean within its configured bounds",
         "level": "exploration",
@@ -204,7 +223,7 @@ PROPS = {
     },
 }
 
-HOOK_COMMITS = []
+HOOK_COMMITS = ["1b2679b", "4e24fb6"]
 
 _PENDING = "check under construction in this session; not claimed until its monitor has been validated on the unchanged tree"
 NOT_APPLICABLE = {("C%02d" % i): _PENDING for i in range(1, 21)}
